@@ -12,6 +12,8 @@ STRINGS = [
     "OC{[>|2|][<]CC[>][<]}|poisson(80)|COC{[>][<]CO[>], [<]C(C)O[>|0.5|][<]}|log_normal(90, 1.1)|F",
     "N{[$][$|0 2 1|]CC[$]; [$]O[$]}|flory_schulz(0.3)|{[$][$]CS[$]; [$][H][]}|gauss(60, 30)|",
 ]
+# several end groups that fit the same open descriptor (a later generation must not reuse what an earlier one attached)
+STRINGS.insert(2, "CC{[$] [$]CC([$])C[$]; [$]O, [$]N, [$]F [$]}|gauss(120, 10)|Cl")
 # transition lists on repeat units whose sums are not 1 (a graph build or a generation must not normalise them in place)
 STRINGS.insert(2, "{[][<]CC[>|0 0 7 0 0 3|], [<]CO[>|2 0 0 0 1 0|]; [<]F, [>][H] []}|gauss(90, 15)|")
 
@@ -38,7 +40,7 @@ def choose_seeds(g, text):
 def run(tier):
     g = common.import_repo()
     v = Verdict("C10", tier)
-    strings = STRINGS if tier == "thorough" else STRINGS[:6]
+    strings = STRINGS if tier == "thorough" else STRINGS[:7]
     # seeds are chosen with a RecordingRNG, but the replay uses numpy's default_rng: map through the drawn value
     seedmap = []
     for s in strings:
